@@ -83,7 +83,7 @@ class SimExecutor:
         self.inline_rate = inline_rate
         self._shutdown = False
 
-    def submit(self, fn, *args, **kwargs):
+    def submit(self, fn, /, *args, **kwargs):
         if self._shutdown:
             raise RuntimeError("cannot schedule new futures after shutdown")
         kernel = self.kernel
